@@ -999,23 +999,63 @@ def check_gds_real(ctx, db):
     ok = "if (($value < 0))" in te and '(v0 = 128)' in te and '($value = (-$value))' in te
     ctx.check(ok and dec_bad is None, 'R-CONST', 'gdsii-real/sign', e.loc(), 'the sign is bit 63 on both sides and the magnitude is encoded')
     ctx.check('if (($value == 0))' in te and te.splitlines()[1].strip() == 'return 0', 'R-SHAPE', 'gdsii-real/zero', e.loc(), 'zero is encoded as all-zero bits before any logarithm is taken')
-    # exponent normalisation idiom: exponent = floor(log16 v) + 1
-    idiom = None
-    fexp = re.search(r'const double (v\d+) = \(0\.25 \* log2\(\$value\)\)', te)
-    arg = fexp.group(1) if fexp else r'\(0\.25 \* log2\(\$value\)\)'
-    mceil = re.search(r'(?:const )?double (v\d+) = ceil\(%s\)' % arg, te)
-    if mceil:
-        ev_ = mceil.group(1)
-        bump = re.search(r'if \(\(%s == %s\)\)\n\s+\(%s\+\+\)' % (ev_, arg, ev_), te) is not None
-        idiom = 'ceil+bump' if bump else 'ceil-only'
-    elif re.search(r'= \(floor\(%s\) \+ 1' % arg, te):
-        idiom = 'floor+1'
-    if idiom in ('ceil+bump', 'floor+1'):
-        ctx.ok('R-IDIOM', 'gdsii-real/exponent-normalisation', e.loc(), 'base-16 exponent = floor(log16 v) + 1 (%s): the mantissa stays below 1 at exact powers of 16' % idiom)
-    elif idiom == 'ceil-only':
-        ctx.violation('R-IDIOM', 'gdsii-real/exponent-normalisation', e.loc(), 'exponent = ceil(log16 v) without the bump at exact powers of 16: the mantissa becomes exactly 1 = 2^56, which the 56-bit mask turns into 0 (16, 256, 1/16 ... encode as 0)')
-    else:
-        raise AnalysisBroken('gdsii_real_from_double: exponent computation is not one of the confirmed idioms (ceil+bump, floor+1); re-confirm by reading')
+    # exponent normalisation, by partial evaluation in exact rational arithmetic (log2 of a power of two is exact; ceil/floor/pow on
+    # rationals are exact): for +-2^j, j = -48..48 (which includes every exact power of 16) and a few 14-hex-digit values, the encoded
+    # real decodes (by the format's definition) to the very value, with a normalised mantissa (first hex digit non-zero)
+    from .. import minieval as M
+    import math
+    from fractions import Fraction
+
+    def hook(callee, args, node):
+        nm = (callee or '').split('::')[-1]
+        if nm == 'log2':
+            v = Fraction(args[0])
+            if v > 0 and (v.numerator & (v.numerator - 1)) == 0 and (v.denominator & (v.denominator - 1)) == 0:
+                return (Fraction(v.numerator.bit_length() - v.denominator.bit_length()),)
+            return (Fraction(math.log2(float(v))),)
+        if nm == 'ceil':
+            return (Fraction(math.ceil(Fraction(args[0]))),)
+        if nm == 'floor':
+            return (Fraction(math.floor(Fraction(args[0]))),)
+        if nm in ('pow', 'exp2', 'ldexp'):
+            if nm == 'exp2':
+                base, ex = Fraction(2), Fraction(args[0])
+            elif nm == 'ldexp':
+                return (Fraction(args[0]) * Fraction(2) ** int(args[1]),)
+            else:
+                base, ex = Fraction(args[0]), Fraction(args[1])
+            if ex.denominator != 1:
+                raise AnalysisBroken('gdsii_real_from_double: pow with a non-integral exponent %s' % ex)
+            return (base ** int(ex),)
+        if nm in ('fabs', 'abs'):
+            return (abs(Fraction(args[0])),)
+        if nm == 'frexp':
+            raise AnalysisBroken('gdsii_real_from_double: frexp is not modelled')
+        return None
+    vals = [Fraction(2) ** j_ for j_ in range(-48, 49)] + [Fraction(3, 4), Fraction(5, 1024), Fraction(0xABCDEF, 1 << 8)]
+    bad = None
+    nenc = 0
+    try:
+        for mag in vals:
+            for sgn in (1, -1):
+                v = mag * sgn
+                try:
+                    M.Mini(db, hook=hook, c_ints=True).run(e.body, {e.params[0]['n']: v})
+                    got = None
+                except M.Return as rr:
+                    got = rr.v
+                nenc += 1
+                if not isinstance(got, int):
+                    raise AnalysisBroken('gdsii_real_from_double: result not evaluable for %s' % v)
+                s_, E_, mant_ = got >> 63, (got >> 56) & 0x7F, got & ((1 << 56) - 1)
+                dec = Fraction(-1 if s_ else 1) * Fraction(mant_, 1 << 56) * (Fraction(16) ** (E_ - 64))
+                if (dec != v or mant_ < (1 << 52)) and bad is None:
+                    bad = 'the value %s is encoded as %016x, which the format reads as %s%s' % (v, got, dec, '' if mant_ >= (1 << 52) else ' (mantissa not normalised)')
+    except AnalysisBroken as ex:
+        raise AnalysisBroken('gdsii_real_from_double is not evaluable: %s' % ex)
+    ctx.explored['valuations'] += nenc
+    ctx.check(bad is None, 'R-IDIOM', 'gdsii-real/exponent-normalisation', e.loc(), 'for %d exactly representable values (all powers of two 2^-48..2^48, hence every power of 16, both signs) the encoder produces bits that the format decodes to the same value, mantissa normalised' % nenc,
+              'exponent normalisation is wrong: %s (at an exact power of 16 the mantissa must stay below 1, i.e. the exponent is floor(log16 v) + 1)' % bad)
 
 
 def run(ctx):
@@ -1034,6 +1074,6 @@ def run(ctx):
 
 MANIFEST = dict(
     text='Decides structural necessary conditions of lossless number codecs: both varint overflow guards are exact over every reachable decoder state x byte value (no silent wrap, no false overflow on terminal bytes, shift < 64, Overflow flagged); writer and reader packing parameters agree at every call-site pair; the four varint routines, partially evaluated on 1277 boundary cases (all 7-bit group boundaries, every reserved-bit count), emit and decode exactly the format\'s bytes with no store outside the local buffer; the closing edge of a closed point list is formed from absolute coordinates (no CFG path from the in-place delta store to the subtraction); for every sign/equality class of (x, y) the 2-/3-/g-delta writers composed with the readers are the identity and the direction/point-list/real type codes equal the specification; the six byte-swap bodies are exactly the byte-reversal permutation (bit-provenance domain) under opposite host guards; the real-number writer forms have inverse reader arms and doubles are cast only after proved integral; closed Manhattan lists drop/re-create exactly one delta; the point-list type classifier, interpreted as a finite automaton over delta classes (horizontal, vertical, two diagonals, general), ends in every reachable state with a list type whose delta codec can represent all deltas seen and, for closed lists, the closing edge; every arm of the point-list decoder, executed symbolically for 3 and 4 deltas (cursors as indices into a symbolic vertex array, fresh symbol per decoded delta, open and closed), stores exactly the vertices the format defines and accounts for exactly that many; the 8-byte-real constants are paired and the exponent uses a normalising idiom. The one-ulp claim and behaviour at 64-bit/exponent boundaries of floating arithmetic are not decided.',
-    note='Trusted: clang front end, gx, sa rules. Guards and writer conditions are pure integer expressions evaluated over finite abstract state sets (decoder states derived from the initialiser and step constants; sign/equality classes of (x, y)); no library code is executed. An exponent computation outside the two confirmed idioms is reported as analysis-broken (to be re-confirmed), a ceil without the bump as a violation.',
+    note='Trusted: clang front end, gx, sa rules. Guards and writer conditions are pure integer expressions evaluated over finite abstract state sets (decoder states derived from the initialiser and step constants; sign/equality classes of (x, y)); no library code is executed. The 8-byte-real encoder is partially evaluated in exact rational arithmetic on every power of two 2^-48..2^48 and a few 14-digit values.',
     technique='exhaustive evaluation of pure guard predicates over the reachable abstract decoder states + partial evaluation of the four varint routines by the checker\'s AST interpreter (C integer widths, local buffers) on a boundary table compared with the format definition + decision-table composition (writer o reader) + bit-provenance abstract domain for swaps + CFG ordering rule (closing edge formed before the in-place delta conversion)',
     design='§4 C19')
